@@ -67,7 +67,9 @@ def _harness_arg(h):
 
 
 def _base_cmd(tdir, features):
-    cmd = ["cargo", "kani", "--target-dir", tdir, "-Z", "stubbing", "-Z", "unstable-options"]
+    # --no-assertion-reach-checks: Kani's per-assertion reachability checks make CBMC emit one full JSON trace per reachable
+    # assertion (3 GB / 250 s for a harness with a few hundred asserts and 64-byte arrays); vacuity is guarded by explicit vcover! witnesses instead
+    cmd = ["cargo", "kani", "--target-dir", tdir, "-Z", "stubbing", "-Z", "unstable-options", "--no-assertion-reach-checks"]
     if features:
         cmd += ["--features", ",".join(features)]
     return cmd
